@@ -534,6 +534,41 @@ def sametick_programs():
     return out
 
 
+def crossclear_programs():
+    """NRT (one scheduler shared by all clocks): fx pending on clock X, f0
+    and r0 pending on ANOTHER clock Y; the controller (on X or on Y) clears
+    X - only X's entries go - and then, at once or 0.25 later, schedules a
+    bystander (f0 / r0, still pending on Y) again on Y: it is moved, not
+    doubled."""
+    out = []
+    FX = {'returns': [1.0, 1.0, 1.0, None], 'kind': 'awakeable'}
+    for X in ('s', 't2', 'a'):
+        for Y in ('s', 't2', 'a'):
+            if X == Y:
+                continue
+            for K in (X, Y):
+                for w in (0.5, 1.5):
+                    for gap in (None, 0.25):
+                        for d in (0, 0.25, 1.0):
+                            for tg in ('f0', 'r0'):
+                                k = [['yield', w], ['clear', X]]
+                                if gap:
+                                    k.append(['yield', gap])
+                                k.append(['sched', Y, d, tg])
+                                out.append({
+                                    'clocks': {'s': NS_SPEC['s'],
+                                               X: NS_SPEC[X], Y: NS_SPEC[Y]},
+                                    'funcs': {'f0': F3, 'fx': FX},
+                                    'routines': {'k': k, 'r0': R3},
+                                    'actors': {'main': [
+                                        ['sched', X, 0, 'fx'],
+                                        ['sched', Y, 0, 'f0'],
+                                        ['sched', Y, 0, 'r0'],
+                                        ['play', 'k', K, 0]]},
+                                    'horizon': 12.0})
+    return out
+
+
 def tempo_programs():
     """NRT: three tasks pending on TempoClock(2) (f0, r0 re-schedule
     themselves, g0 is awakened once), with ties in beats and every heap
@@ -617,6 +652,8 @@ def clock_cases():
     for prog in sametick_programs():
         out.append(['sametick', 'nrt', prog])
         out.append(['sametick', 'rt', prog])
+    for prog in crossclear_programs():
+        out.append(['crossclear', 'nrt', prog])
     for prog in tempo_programs():
         out.append(['tempo', 'nrt', prog])
     for prog in reset_programs():
@@ -731,7 +768,7 @@ def clock_work(job):
     for family, mode, prog in clock_cases():
         if mode != job['mode']:
             continue
-        if family == 'sametick':        # small: always run in full
+        if family in ('sametick', 'crossclear'):   # small: always in full
             m += 1
             if m % job['of'] != job['shard']:
                 continue
@@ -1498,7 +1535,10 @@ def main(ctx):
                      bound=f'clock tasks ({mode}): one-clock controller '
                            'programs (sched / sched_abs / clear / controller '
                            're-scheduling itself, plain function alongside; '
-                           'same-instant programs in full)' +
+                           'same-instant programs in full' +
+                           ('; clear of one clock then re-scheduling of a '
+                            'task pending on another clock, in full'
+                            if mode == 'nrt' else '') + ')' +
                            (', tempo/beats change with 3 pending entries, '
                             'main.reset()' if mode == 'nrt' else
                             ' on the real-time clocks, default schedule') + sl)
